@@ -204,7 +204,14 @@ def target_modules(modules, title, allowed=()):
                 continue
             names = [f.name for f in tree.body if isinstance(f, ast.FunctionDef)]
             n += len(names)
+            before = len(sess.obligations)
             check(sess, module, names, allowed)
+            # the same statement for the module as a whole (a function added later is covered under this name)
+            bad = [o for o in sess.obligations[before:] if o.status != "discharged"]
+            ob = sess.check("frame", [], z3.BoolVal(not bad), 0, label=f"{module}: no module-level function keeps state between calls")
+            if bad:
+                ob.detail = "; ".join(f"{o.name.split('frame[')[-1].split(' writes')[0]}: {o.detail[:160]}" for o in bad[:3])
+                ob.formula = ob.detail
         sess.check("cover", [], z3.BoolVal(n >= 1), 0, label=f"functions scanned: {n}")
         sess.assumptions.append("purity beyond module-level state (numpy/scipy/lmfit internals, RNG) is assumed")
     return (f"{modules[0]}:{title}", modules[0], "_generate_time_constants" if "utility" in modules[0] else "", run)
